@@ -1,11 +1,471 @@
 package main
 
 import (
+	"encoding/json"
+	"flag"
 	"fmt"
+	"os"
+	"path/filepath"
+	"runtime/debug"
+	"sort"
+	"strconv"
+	"strings"
+	"sync"
+	"time"
 
-	_ "golang.org/x/tools/go/packages"
-	_ "golang.org/x/tools/go/ssa"
-	_ "golang.org/x/tools/go/ssa/ssautil"
+	"golang.org/x/tools/go/ssa"
 )
 
-func main() { fmt.Println("govc") }
+type job struct {
+	g *Gen
+	o *Obligation
+}
+
+func main() {
+	if len(os.Args) < 2 {
+		fmt.Println("usage: govc check|units|dump ...")
+		os.Exit(2)
+	}
+	cmd := os.Args[1]
+	fs := flag.NewFlagSet(cmd, flag.ExitOnError)
+	prop := fs.String("prop", "", "property id (Cxx); empty = all units")
+	tier := fs.String("tier", "quick", "quick|thorough")
+	unitFilter := fs.String("unit", "", "only units whose name contains this")
+	repo := fs.String("repo", "/repo", "repository under verification")
+	verif := fs.String("verif", "/verif", "verification directory")
+	verbose := fs.Bool("v", false, "verbose")
+	oblFilter := fs.String("obl", "", "only obligations whose name contains this")
+	keep := fs.Bool("keep", false, "keep SMT files of proved obligations")
+	noEvidence := fs.Bool("noevidence", false, "do not write evidence")
+	timeoutFlag := fs.Int("timeout", 0, "per-obligation timeout in seconds (0 = tier default)")
+	fs.Parse(os.Args[2:])
+
+	eng := &Engine{repoDir: *repo, verifDir: *verif}
+	start := time.Now()
+	if err := eng.Load(); err != nil {
+		fmt.Println("govc: load failed:", err)
+		if cmd == "check" && *prop != "" {
+			// a tree that does not compile is outside the task; report as error, not as violation
+			os.Exit(3)
+		}
+		os.Exit(3)
+	}
+	loadSecs := time.Since(start).Seconds()
+	for _, e := range eng.cs.Errs {
+		fmt.Println("contract error:", e)
+	}
+
+	switch cmd {
+	case "units":
+		for _, k := range eng.cs.Order {
+			ct := eng.cs.ByKey[k]
+			st := "checked"
+			if ct.Assumed != "" {
+				st = "assumed"
+			}
+			fmt.Printf("%-80s %-8s props=%v\n", shortUnit(k), st, ct.Props)
+		}
+		return
+	case "check", "dump":
+	default:
+		fmt.Println("unknown command", cmd)
+		os.Exit(2)
+	}
+
+	timeout := 10
+	if *tier == "thorough" {
+		timeout = 60
+	}
+	if *timeoutFlag > 0 {
+		timeout = *timeoutFlag
+	}
+
+	// select units
+	var units []*Gen
+	var bindErrs []string
+	for _, k := range eng.cs.Order {
+		ct := eng.cs.ByKey[k]
+		if ct.Assumed != "" {
+			continue
+		}
+		if *prop != "" && !contractHasProp(ct, *prop) {
+			continue
+		}
+		if *unitFilter != "" && !strings.Contains(k, *unitFilter) {
+			continue
+		}
+		fn := eng.fnByKey[k]
+		if fn == nil {
+			bindErrs = append(bindErrs, fmt.Sprintf("%s#bind: contract target not found in the repository", shortUnit(k)))
+			continue
+		}
+		units = append(units, eng.NewGen(fn, ct))
+	}
+	if len(eng.cs.Errs) > 0 {
+		for _, e := range eng.cs.Errs {
+			bindErrs = append(bindErrs, "contract-syntax: "+e)
+		}
+	}
+
+	// generate
+	genStart := time.Now()
+	var wg sync.WaitGroup
+	sem := make(chan struct{}, 16)
+	for _, g := range units {
+		g := g
+		wg.Add(1)
+		sem <- struct{}{}
+		go func() {
+			defer wg.Done()
+			defer func() { <-sem }()
+			defer func() {
+				if r := recover(); r != nil {
+					g.errs = append(g.errs, fmt.Sprintf("generator panic: %v\n%s", r, debug.Stack()))
+				}
+			}()
+			g.run()
+		}()
+	}
+	wg.Wait()
+	genSecs := time.Since(genStart).Seconds()
+
+	if cmd == "dump" {
+		for _, g := range units {
+			for _, o := range g.obls {
+				if *oblFilter == "" || strings.Contains(o.Name, *oblFilter) {
+					fmt.Println(g.smtFor(o))
+				}
+			}
+			for _, e := range g.errs {
+				fmt.Println("; ERROR:", e)
+			}
+		}
+		return
+	}
+
+	workDir := filepath.Join(*verif, "work", "smt", orDefault(*prop, "all"))
+	os.RemoveAll(workDir)
+	os.MkdirAll(workDir, 0o755)
+
+	// solve
+	st := &solverStats{bySolver: map[string]int{}, secs: map[string]float64{}}
+	var jobs []job
+	for _, g := range units {
+		for _, o := range g.obls {
+			if *oblFilter != "" && !strings.Contains(o.Name, *oblFilter) {
+				continue
+			}
+			if *prop != "" && !obligationHasProp(g.ct, o, *prop) {
+				continue
+			}
+			jobs = append(jobs, job{g, o})
+		}
+	}
+	solveStart := time.Now()
+	jch := make(chan job)
+	var swg sync.WaitGroup
+	for w := 0; w < 14; w++ {
+		swg.Add(1)
+		go func() {
+			defer swg.Done()
+			for j := range jch {
+				discharge(j.g, j.o, workDir, timeout, st)
+				if j.o.Status == "proved" && !*keep {
+					os.Remove(j.o.SMTFile)
+				}
+			}
+		}()
+	}
+	for _, j := range jobs {
+		jch <- j
+	}
+	close(jch)
+	swg.Wait()
+	solveSecs := time.Since(solveStart).Seconds()
+
+	// report
+	var allObls []*Obligation
+	for _, j := range jobs {
+		allObls = append(allObls, j.o)
+	}
+	rep := buildReport(eng, *prop, *tier, units, allObls, bindErrs, st, *verif)
+	rep.LoadS, rep.GenS, rep.SolveS = loadSecs, genSecs, solveSecs
+	rep.WallS = time.Since(start).Seconds()
+	if *verbose {
+		for _, j := range jobs {
+			fmt.Printf("%-9s %-70s %6.2fs %s %s\n", j.o.Status, j.o.Name, j.o.Time, j.o.Solver, j.o.Output)
+		}
+	}
+	code := rep.finish(*noEvidence || *prop == "")
+	os.Exit(code)
+}
+
+
+func orDefault(s, d string) string {
+	if s == "" {
+		return d
+	}
+	return s
+}
+
+func contractHasProp(ct *Contract, p string) bool {
+	for _, x := range ct.Props {
+		if x == p {
+			return true
+		}
+	}
+	all := [][]*Clause{ct.Requires, ct.Ensures, ct.Modifies}
+	for _, l := range ct.Loops {
+		all = append(all, l.Inv)
+	}
+	for _, cl := range all {
+		for _, c := range cl {
+			for _, x := range c.Props {
+				if x == p {
+					return true
+				}
+			}
+		}
+	}
+	// every unit with a frame contributes to C13
+	if p == "C13" && !ct.ModAny && ct.Options["noframe"] == "" && len(ct.Props) > 0 {
+		return true
+	}
+	return false
+}
+
+func obligationHasProp(ct *Contract, o *Obligation, p string) bool {
+	for _, x := range ct.Props {
+		if x == p {
+			return true
+		}
+	}
+	for _, x := range o.Props {
+		if x == p {
+			return true
+		}
+	}
+	return false
+}
+
+// ---------- report ----------
+
+type Report struct {
+	eng      *Engine
+	prop     string
+	tier     string
+	units    []*Gen
+	obls     []*Obligation
+	bindErrs []string
+	st       *solverStats
+	verif    string
+	LoadS    float64
+	GenS     float64
+	SolveS   float64
+	WallS    float64
+}
+
+func buildReport(eng *Engine, prop, tier string, units []*Gen, obls []*Obligation, bindErrs []string, st *solverStats, verif string) *Report {
+	return &Report{eng: eng, prop: prop, tier: tier, units: units, obls: obls, bindErrs: bindErrs, st: st, verif: verif}
+}
+
+type knownFinding struct {
+	prop, obligation, text string
+}
+
+func loadKnownFindings(path string) []knownFinding {
+	b, err := os.ReadFile(path)
+	if err != nil {
+		return nil
+	}
+	var out []knownFinding
+	for _, line := range strings.Split(string(b), "\n") {
+		line = strings.TrimSpace(line)
+		if line == "" || strings.HasPrefix(line, "#") || strings.HasPrefix(line, "fixed:") {
+			continue
+		}
+		kf := knownFinding{text: line}
+		for _, f := range strings.Fields(line) {
+			if strings.HasPrefix(f, "property=") {
+				kf.prop = strings.TrimPrefix(f, "property=")
+			}
+			if strings.HasPrefix(f, "obligation=") {
+				kf.obligation = strings.TrimPrefix(f, "obligation=")
+			}
+		}
+		out = append(out, kf)
+	}
+	return out
+}
+
+func (r *Report) finish(noEvidence bool) int {
+	known := loadKnownFindings(filepath.Join(r.verif, "known_findings.txt"))
+	nObl, nProved, nCover, nCoverOK := 0, 0, 0, 0
+	var failed []*Obligation
+	var samples []interface{}
+	kinds := map[string]int{}
+	for _, o := range r.obls {
+		if o.MustSat {
+			nCover++
+			if o.Status == "proved" {
+				nCoverOK++
+			} else if o.Status == "failed" {
+				// precondition unsatisfiable: vacuous contract
+				failed = append(failed, o)
+			}
+			continue
+		}
+		nObl++
+		kinds[o.Kind]++
+		if o.Status == "proved" {
+			nProved++
+			if len(samples) < 6 && (o.Kind == "post" || o.Kind == "inv.keep" || o.Kind == "frame") {
+				samples = append(samples, map[string]interface{}{"obligation": o.Name, "what": o.Desc, "at": o.Pos, "solver": o.Solver, "secs": round3(o.Time)})
+			}
+		} else {
+			failed = append(failed, o)
+		}
+	}
+	if len(samples) == 0 {
+		for _, o := range r.obls {
+			if o.Status == "proved" && len(samples) < 4 {
+				samples = append(samples, map[string]interface{}{"obligation": o.Name, "what": o.Desc, "at": o.Pos, "solver": o.Solver})
+			}
+		}
+	}
+	// engine errors per unit
+	var unitErrs []string
+	funcs := []string{}
+	assumed := map[string]bool{}
+	havoc := map[string]bool{}
+	var notes []string
+	for _, g := range r.units {
+		funcs = append(funcs, g.unit)
+		for _, e := range g.errs {
+			unitErrs = append(unitErrs, g.unit+"#bind: "+e)
+		}
+		for k := range g.assumedUsed {
+			assumed[k] = true
+		}
+		for k := range g.havocCallees {
+			havoc[g.unit+" calls "+k] = true
+		}
+		for _, n := range g.notes {
+			notes = append(notes, g.unit+": "+n)
+		}
+	}
+	unitErrs = append(unitErrs, r.bindErrs...)
+
+	violations := 0
+	knownHit := 0
+	replayDir := filepath.Join(r.verif, "replay", orDefault(r.prop, "all"))
+	if len(failed) > 0 || len(unitErrs) > 0 {
+		os.MkdirAll(replayDir, 0o755)
+	}
+	isKnown := func(name string) *knownFinding {
+		for i := range known {
+			if known[i].obligation == name && (known[i].prop == r.prop || r.prop == "") {
+				return &known[i]
+			}
+		}
+		return nil
+	}
+	for _, o := range failed {
+		if kf := isKnown(o.Name); kf != nil {
+			fmt.Printf("KNOWN-FINDING: property=%s %s\n", orDefault(r.prop, kf.prop), kf.text)
+			knownHit++
+			continue
+		}
+		violations++
+		path := filepath.Join(replayDir, sanitize(strings.ReplaceAll(o.Name, "#", "__"))+".json")
+		rp := replayObligation(r, o)
+		rec := map[string]interface{}{
+			"property": r.prop, "obligation": o.Name, "kind": o.Kind, "description": o.Desc, "source": o.Pos,
+			"status": o.Status, "solver": o.Solver, "solver_output": o.Output, "model": o.Model, "smt_file": o.SMTFile,
+			"replay": rp,
+		}
+		b, _ := json.MarshalIndent(rec, "", " ")
+		os.WriteFile(path, b, 0o644)
+		suffix := ""
+		if rp == nil || rp["failing_input_found"] != true {
+			suffix = " no-failing-input-found"
+		}
+		fmt.Printf("FAILED obligation %s (%s) at %s: %s\n", o.Name, o.Status, o.Pos, o.Desc)
+		fmt.Printf("VIOLATION property=%s replay=%s%s\n", orDefault(r.prop, "all"), path, suffix)
+	}
+	for i, e := range unitErrs {
+		violations++
+		path := filepath.Join(replayDir, fmt.Sprintf("bind_%d.json", i))
+		b, _ := json.MarshalIndent(map[string]interface{}{"property": r.prop, "obligation": strings.SplitN(e, ":", 2)[0], "error": e,
+			"explanation": "the contract could not be bound to / generated from the current source; the obligation is undecided"}, "", " ")
+		os.WriteFile(path, b, 0o644)
+		fmt.Printf("FAILED %s\n", e)
+		fmt.Printf("VIOLATION property=%s replay=%s no-failing-input-found\n", orDefault(r.prop, "all"), path)
+	}
+	if nObl == 0 && r.prop != "" {
+		violations++
+		fmt.Printf("FAILED no obligations were generated for %s (vacuous check)\n", r.prop)
+		fmt.Printf("VIOLATION property=%s replay=%s no-failing-input-found\n", r.prop, filepath.Join(replayDir, "vacuous.json"))
+		os.MkdirAll(replayDir, 0o755)
+		os.WriteFile(filepath.Join(replayDir, "vacuous.json"), []byte(`{"error":"zero obligations generated"}`), 0o644)
+	}
+
+	fmt.Printf("govc: property=%s tier=%s units=%d obligations=%d discharged=%d covers=%d/%d failed=%d known=%d load=%.1fs gen=%.1fs solve=%.1fs\n",
+		orDefault(r.prop, "all"), r.tier, len(r.units), nObl, nProved, nCoverOK, nCover, violations, knownHit, r.LoadS, r.GenS, r.SolveS)
+
+	if !noEvidence {
+		sort.Strings(funcs)
+		var trusted []string
+		trusted = append(trusted, "A1 govc VC generator (go/ssa -> SMT translation, heap model, integer semantics) and go/ssa v0.29.0",
+			"A2 SMT solvers: z3 5.1.0 (z3-new), z3 4.8.12, cvc5 1.0.3")
+		var assumptions []string
+		for k := range assumed {
+			assumptions = append(assumptions, "assumed contract: "+k)
+		}
+		for k := range havoc {
+			assumptions = append(assumptions, "callee without contract (havoc-abstracted): "+k)
+		}
+		sort.Strings(assumptions)
+		assumptions = append(assumptions, propAssumptions[r.prop]...)
+		assumptions = append(assumptions, notes...)
+		seed, _ := strconv.Atoi(os.Getenv("VERIF_SEED"))
+		solverSecs := map[string]float64{}
+		for k, v := range r.st.secs {
+			solverSecs[k] = round3(v)
+		}
+		ev := map[string]interface{}{
+			"property_id": r.prop, "tier": r.tier, "seed": seed, "level": "proof",
+			"coverage": map[string]interface{}{
+				"obligations": nObl, "discharged": nProved,
+				"checker_cmd":             fmt.Sprintf("/verif/bin/govc check -prop %s -tier %s", r.prop, r.tier),
+				"trusted_base":            trusted,
+				"functions_under_contract": funcs,
+				"obligation_kinds":        kinds,
+				"discharged_by_backend":   r.st.bySolver,
+				"solver_seconds":          solverSecs,
+				"vacuity_covers":          map[string]int{"total": nCover, "satisfiable": nCoverOK},
+				"samples":                 samples,
+				"known_findings_hit":      knownHit,
+				"bounded_standins":        boundedStandins[r.prop],
+				"explanation":             "every obligation is generated from the current /repo source (go/ssa) and the contracts in zz_contracts_verif.go; discharged = solver answered unsat for the negated obligation",
+			},
+			"assumptions": assumptions,
+			"wall_s":      round3(r.WallS),
+			"violations":  violations,
+		}
+		os.MkdirAll(filepath.Join(r.verif, "evidence"), 0o755)
+		b, _ := json.MarshalIndent(ev, "", " ")
+		os.WriteFile(filepath.Join(r.verif, "evidence", r.prop+".json"), b, 0o644)
+	}
+	if violations > 0 {
+		return 1
+	}
+	return 0
+}
+
+func round3(x float64) float64 { return float64(int(x*1000+0.5)) / 1000 }
+
+var propAssumptions = map[string][]string{}
+var boundedStandins = map[string][]string{}
+
+var _ = ssa.BuilderMode(0)
